@@ -610,9 +610,19 @@ func (r *RegisteredDecoys) track(d *DecoyRegistration) error {
 		regID:            d.IDString(),
 		status:           regStatusUnused,
 	}
-	r.decoysTimeouts[d.IDString()+phantomAddr] = newTimeout
+	r.decoysTimeouts[timeoutKey(phantomAddr, identifier)] = newTimeout
 
 	return nil
+}
+
+// timeoutKey returns the key of a registration's record in decoysTimeouts. It is
+// built from the same two components that key the decoys map (phantom address
+// and transport-specific identifier), so that every tracked registration has
+// its own timeout record: one shared secret registered with two transports on
+// the same phantom must not share (and overwrite) a record. The separator
+// cannot occur in the textual form of an IP address.
+func timeoutKey(phantomAddr, identifier string) string {
+	return phantomAddr + "|" + identifier
 }
 
 func (r *RegisteredDecoys) register(darkDecoyAddr string, d *DecoyRegistration) error {
@@ -651,8 +661,13 @@ func (r *RegisteredDecoys) markActive(d *DecoyRegistration) {
 	r.m.Lock()
 	defer r.m.Unlock()
 
+	t, ok := r.transports[d.Transport]
+	if !ok {
+		return
+	}
+
 	phantomAddr := d.PhantomIp.String()
-	if regTimeout, ok := r.decoysTimeouts[d.IDString()+phantomAddr]; ok {
+	if regTimeout, ok := r.decoysTimeouts[timeoutKey(phantomAddr, t.GetIdentifier(d))]; ok {
 		regTimeout.status = regStatusUsed
 
 		// Since we update the applicable timeout here, we should update that
